@@ -338,3 +338,55 @@ func (f *c37LockedFile) Close() error {
 	defer f.fs.mu.Unlock()
 	return f.f.Close()
 }
+
+// vhC37TimeoutStream: StreamRequestBody with TimeoutHandler; the wrapped
+// handler is still reading the request body stream (the rest of the body
+// arrives late) when the timeout fires and the serve loop answers in its place.
+func vhC37TimeoutStream() {
+	var got atomic.Int32
+	s := &Server{NoDefaultDate: true, NoDefaultServerHeader: true, StreamRequestBody: true}
+	s.ReduceMemoryUsage = vBool("reduceMemory")
+	pause := [...]time.Duration{0, 80 * time.Millisecond}[vChoose("handlerPausesBetweenReads", 2)]
+	oneSegment := vBool("bodyArrivesAtOnce")
+	inner := func(ctx *RequestCtx) {
+		buf := make([]byte, 64)
+		rs := ctx.RequestBodyStream()
+		for {
+			n, err := rs.Read(buf[:4])
+			got.Add(int32(n))
+			if err != nil {
+				break
+			}
+			time.Sleep(pause) // a handler that works on each piece for a while
+		}
+		ctx.SetBodyString("done")
+	}
+	s.Handler = TimeoutHandler(inner, 50*time.Millisecond, "timed out")
+	c := newVlConn()
+	chunked := vBool("chunked")
+	done := make(chan error, 1)
+	go func() { done <- s.ServeConn(c) }()
+	if chunked && oneSegment {
+		c.in <- []byte("POST /up HTTP/1.1\r\nHost: a\r\nTransfer-Encoding: chunked\r\n\r\n4\r\nabcd\r\n4\r\nefgh\r\n0\r\n\r\n")
+		time.Sleep(300 * time.Millisecond)
+		close(c.in)
+		<-done
+		vAssert("served", len(c.wrote) > 0 && got.Load() >= 4)
+		return
+	}
+	if chunked {
+		c.in <- []byte("POST /up HTTP/1.1\r\nHost: a\r\nTransfer-Encoding: chunked\r\n\r\n4\r\nabcd\r\n")
+	} else {
+		c.in <- []byte("POST /up HTTP/1.1\r\nHost: a\r\nContent-Length: 8\r\n\r\nabcd")
+	}
+	time.Sleep([...]time.Duration{100, 20}[vChoose("restArrivesAfter", 2)] * time.Millisecond)
+	if chunked {
+		c.in <- []byte("4\r\nefgh\r\n0\r\n\r\n")
+	} else {
+		c.in <- []byte("efgh")
+	}
+	time.Sleep(100 * time.Millisecond)
+	close(c.in)
+	<-done
+	vAssert("served", len(c.wrote) > 0 && got.Load() >= 4)
+}
